@@ -463,21 +463,18 @@ impl RuntypeUUID {
                     let type_with_args_count = ctx.type_with_args_names.len();
                     let final_suffix =
                         Self::type_with_args_str(type_with_args_count, &self.type_arguments, ctx);
-                    let final_name = format!("{}{}", base, final_suffix);
-                    for (uuid, name) in ctx.type_with_args_names.iter() {
-                        let has_same_name = name == &final_name;
-                        if has_same_name {
-                            dbg!(&uuid);
-                            dbg!(&self);
-                            dbg!(uuid == self);
-                            panic!(
-                                "Internal error: type with args name conflict: {} vs {}",
-                                uuid.diag_print(),
-                                self.diag_print()
-                            );
-                        }
+                    let mut final_name = format!("{}{}", base, final_suffix);
+                    // two different instantiations can be spelled alike once their arguments are written as
+                    // identifiers (`Box<E.A>` next to `Box<E__A>`): the later one gets a numeric suffix
+                    let mut n = 1;
+                    while ctx
+                        .type_with_args_names
+                        .values()
+                        .any(|name| name == &final_name)
+                    {
+                        n += 1;
+                        final_name = format!("{}{}_{}", base, final_suffix, n);
                     }
-
                     ctx.type_with_args_names
                         .insert(self.clone(), final_name.clone());
                     final_name
